@@ -214,6 +214,11 @@ fn c01(
                 // may differ: the comparison is then inconclusive, not a verdict
                 continue;
             }
+            // the same choice numbers must have selected the same events: when the option
+            // lists differ in content (not only in length) the rerun is a different history
+            if main_events(&e.recs) != main_events(&e2.recs) {
+                continue;
+            }
             let f2 = facts(&e2.recs);
             let o2 = observable(&f2);
             if o2 != base {
@@ -234,6 +239,19 @@ fn c01(
     let mut sorted = order.clone();
     sorted.sort();
     *nt = f.strays > 0 || order != sorted || f.caller_out.len() >= 2;
+}
+
+/// the events the explorer chose in the main phase, as text
+fn main_events(recs: &[Rec]) -> Vec<&str> {
+    let mut out = vec![];
+    for r in recs {
+        match r {
+            Rec::Ev(e) => out.push(e.as_str()),
+            Rec::N("main_end", _) => break,
+            _ => {}
+        }
+    }
+    out
 }
 
 // ---------------------------------------------------------------------------------------------
@@ -984,6 +1002,7 @@ pub fn c14(
     let mut sink_err = false;
     let mut write_err = false;
     let mut unflushed = 0u32;
+    let mut read_eof = false;
     let mut last_flush_pending_after_write = false;
     let mut saw_pending = false;
     let mk = |rule: &str, msg: String| Violation {
@@ -1062,7 +1081,11 @@ pub fn c14(
                         _ => {}
                     }
                 }
-                Op::Next => {}
+                Op::Next => {
+                    if *res == Res::Eof {
+                        read_eof = true;
+                    }
+                }
             },
             Rec::PeerSaw { .. } => {}
             Rec::S("stream_end", _) if matches!(owner, Task::Stream(_)) => {
@@ -1080,7 +1103,9 @@ pub fn c14(
                         format!("{owner:?} returned Pending with {unflushed} written items not flushed and no flush pending"),
                     ));
                 }
-                let terminal = *ready && !matches!(owner, Task::Stream(_));
+                // A client dispatch that ends because the peer ended its read side must stop
+                // promptly (C10); it is not asked to wait for a flush that may never complete.
+                let terminal = *ready && !matches!(owner, Task::Stream(_)) && !read_eof;
                 if terminal && unflushed > 0 && !sink_err && !write_err {
                     vs.push(mk(
                         "C14-iii-finished-unflushed",
@@ -1273,7 +1298,9 @@ pub fn configs(prop: CProp, tier: Tier) -> Vec<CCfg> {
             }
         }
         CProp::C05 => {
-            let alpha = A_ADVANCE | A_REPLY_UNOWED | A_DRAIN;
+            // a caller may also give up at any point: the timer of an abandoned call must not
+            // disturb the expiry of the others (found missing by seeded change C05c)
+            let alpha = A_ADVANCE | A_REPLY_UNOWED | A_DRAIN | A_ABANDON;
             let ds: &[i64] = &[-1000, 0, 1, 50, 1000, 10_000, 700 * 86_400_000];
             for (fl, cap) in transports {
                 for mif in 1..=2usize {
@@ -1296,6 +1323,16 @@ pub fn configs(prop: CProp, tier: Tier) -> Vec<CCfg> {
                                     ],
                                     mif, 1, *fl, *cap, alpha,
                                 ));
+                            }
+                            // one of the two is abandoned after its request went out, the other
+                            // waits for its own deadline
+                            for who in 0..2usize {
+                                let mut cs = vec![
+                                    CallerCfg { deadline_ms: *d0, ..CallerCfg::simple(false) },
+                                    CallerCfg { deadline_ms: d1, ..CallerCfg::simple(false) },
+                                ];
+                                cs[who].script = Script::AbandonAfter(2);
+                                out.push(base(cs, mif, 1, *fl, *cap, alpha));
                             }
                         }
                     }
@@ -1385,7 +1422,9 @@ pub fn configs(prop: CProp, tier: Tier) -> Vec<CCfg> {
             }
         }
         CProp::C14 => {
-            let alpha = A_ABANDON | A_DRAIN | A_REPLY_UNOWED;
+            // the peer may also end the read side at any point (A_EOF): whatever the dispatch
+            // wrote must still be flushed or closed before it completes
+            let alpha = A_ABANDON | A_DRAIN | A_REPLY_UNOWED | A_EOF;
             // fault sequences: after a reported readiness / write / flush / close failure nothing
             // more is written (the k-th call of each sink operation fails, one-shot and sticky)
             for (fl, cap) in [(Flavour::Always, 1usize), (Flavour::Coupled, 1), (Flavour::Indep, 1)] {
